@@ -552,6 +552,27 @@ GLOBALS = [
     (xtaskglobals.Env, "_instance", lambda: None),
 ]
 
+_orig_glob = Path.glob
+_orig_iterdir = Path.iterdir
+
+
+def _shuffled(items):
+    if W is None or W.k.current is None or not W.cfg.get("readdir_shuffle") or len(items) < 2:
+        return items
+    W.k.count("fault:readdir-order")
+    return W.k.permute(items, "readdir")
+
+
+def sim_glob(self, pattern, **kw):
+    """Directory listing order is unspecified (it is hash order on ext4): when the
+    workload enables it, the kernel PRNG decides it."""
+    return iter(_shuffled(list(_orig_glob(self, pattern, **kw))))
+
+
+def sim_iterdir(self):
+    return iter(_shuffled(list(_orig_iterdir(self))))
+
+
 _installed = False
 
 
@@ -600,6 +621,9 @@ def install():
         stack=lambda: [(None,), (sys._getframe(2),)],
         getframeinfo=lambda fr, context=1: types.SimpleNamespace(filename=fr.f_code.co_filename, lineno=fr.f_lineno),
     )
+
+    Path.glob = sim_glob
+    Path.iterdir = sim_iterdir
 
     xrun.Path = SimPath
     xrun.os = Proxy(
